@@ -18,13 +18,15 @@ def tl_event(tok):
     if k == "B" and len(f) == 4:
         return "EB %s %s %s" % (_nat(f[1]), _nat(f[2]), _nat(f[3]))
     if k == "R" and len(f) >= 3:
-        r = {"ok": "(Some ROk)", "ctx": "(Some RCtxErr)", "to": "(Some RTimeout)"}.get(f[2], "None")
+        r = {"ok": "(Some ROk)", "ctx": "(Some RCtxErr)", "to": "(Some RTimeout)", "rej": "(Some RTimeout)"}.get(f[2], "None")
         return "ER %s %s" % (_nat(f[1]), r)
     if k == "S" and len(f) == 2:
         return "ES %s" % _nat(f[1])
     if k == "F" and len(f) == 3:
         if f[2] == "ret":
             return "EF %s None" % _nat(f[1])
+        if f[2] == "pnil":
+            return "EF %s (Some 0)" % _nat(f[1])
         if f[2].startswith("p") and len(f[2]) > 1:
             return "EF %s (Some %s)" % (_nat(f[1]), _nat(f[2][1:]))
     if tok == "Xb":
@@ -43,18 +45,23 @@ def tl_event(tok):
     raise ValueError(tok)
 
 
-def tl_casesv(lines):
+def tl_casesv(lines, verdict="verdict_ok", check="check_history"):
     """HS lines (short histories) -> cases.v: the same verdict as the extracted driver (monitors and acceptor)."""
     rows = []
     for l in lines:
         f = l.split()
         try:
             evs = "; ".join(tl_event(t) for t in f[3:])
-            rows.append("verdict_ok (check_history %s %s default_fuel [%s])" % (_nat(f[1]), _nat(f[2]), evs))
+            rows.append(verdict + " (" + check + " %s %s default_fuel [%s])" % (_nat(f[1]), _nat(f[2]), evs))
         except ValueError:
             rows.append("false")  # a token outside the format: the driver reports it as SPECFAIL
     return ("From Coq Require Import List.\nImport ListNotations.\nFrom Glb Require Import Model.TaskLane Check.TaskLane.\n"
             "Definition verdicts : list bool := [\n  " + ";\n  ".join(rows) + "].\nEval vm_compute in verdicts.\n")
+
+
+def tl_casesv_lax(lines):
+    """C06 / C07 / C08: after Wait() only PendingTask <= accepted - started (driver flag --lax-pending-after-wait)."""
+    return tl_casesv(lines, "verdict_ok_lax", "check_history_lax")
 
 
 def tl_sig(line):
